@@ -204,6 +204,40 @@ theorem factorize_map {G : V → Prop} {isZero : V → Bool} {inv : V → V} {is
       rw [es]
       exact this
 
+theorem map_setD (S : Skyline V R) (i : Nat) (v : V) :
+    ({ map φ ψ S with D := (map φ ψ S).D.setIfInBounds i (φ v) } : Skyline V' R')
+      = map φ ψ { S with D := S.D.setIfInBounds i v } := by
+  apply ext7 <;> try rfl
+  show (S.D.map φ).setIfInBounds i (φ v) = (S.D.setIfInBounds i v).map φ
+  rw [Array.map_setIfInBounds]
+
+/-- the pivot candidates of the image run are the images of the pivot candidates, and they are good values -/
+theorem pivots_map {G : V → Prop} {isZero : V → Bool} {inv : V → V} {isZero' : V' → Bool} {inv' : V' → V'}
+    (h : OpHom φ) (t : TestHom G φ isZero inv isZero' inv') (S : Skyline V R) (hD : ∀ i, G (S.D.getD i 0))
+    (k : Nat) (Sk' : Skyline V' R')
+    (hrun : factorLoop isZero' inv'
+      { map φ ψ S with D := (map φ ψ S).D.setIfInBounds 0 (inv' ((map φ ψ S).D.getD 0 0)) } k = .ok Sk') :
+    ∃ Sk, factorLoop isZero inv { S with D := S.D.setIfInBounds 0 (inv (S.D.getD 0 0)) } k = .ok Sk ∧
+      G (pivotSum (factorStepLU Sk k) k) ∧
+      pivotSum (factorStepLU Sk' k) k = φ (pivotSum (factorStepLU Sk k) k) := by
+  have e0 : (map φ ψ S).D.getD 0 0 = φ (S.D.getD 0 0) := getD_map φ h.zero S.D 0
+  rw [e0, ← t.inv _ (hD 0), map_setD] at hrun
+  have hS1 : ∀ i, 0 < i → G (({ S with D := S.D.setIfInBounds 0 (inv (S.D.getD 0 0)) } : Skyline V R).D.getD i 0) := by
+    intro i hi
+    show (S.D.setIfInBounds 0 _).getD i 0 ∈ {a | G a}
+    rw [Arr2.getD_setIfInBounds_ne _ _ _ (by omega)]; exact hD i
+  obtain ⟨hm1, hm2⟩ := factorLoop_map ψ h t { S with D := S.D.setIfInBounds 0 (inv (S.D.getD 0 0)) } hS1 k
+  rw [hm1] at hrun
+  cases hl : factorLoop isZero inv { S with D := S.D.setIfInBounds 0 (inv (S.D.getD 0 0)) } k with
+  | precondition => rw [hl] at hrun; simp [SkyOutcome.map] at hrun
+  | ok Sk =>
+    rw [hl] at hrun
+    have e : map φ ψ Sk = Sk' := by
+      simp only [SkyOutcome.map] at hrun
+      injection hrun
+    refine ⟨Sk, rfl, pivotSum_G t.gsub Sk k (hm2 Sk hl (k + 1) (by omega)), ?_⟩
+    rw [← e, factorStepLU_map ψ h, pivotSum_map ψ h]
+
 end factor
 section solve
 variable [Zero V] [Zero V'] [Zero R] [Sub R] [HMul V R R] [Zero R'] [Sub R'] [HMul V' R' R']
